@@ -54,3 +54,17 @@ Proof. exact tie_collector_flush. Qed.
 Check C14_source_collector_flush : forall fuel v st, length (lines (buf (vterm v))) + 1 < fuel -> g_collector_flush fuel (v, st) = Ok (collector_flush st (lines (buf (vterm v)))).
 Print Assumptions C14_source_collector_flush.
 
+From Avt Require Import Gen.AccFns Proofs.AccTie.
+(** SOURCE TIE BY PROOF (translate/acc2coq.py -> Gen/AccFns.v) *)
+(** TextCollector::feed_str: Vt::feed_str, then every drained scrollback line through the TextUnwrapper (the returned iterator taken as fully consumed) *)
+Theorem C14_source_collector_feed_str : forall v st s, g_collector_feed_str feed_str (v, st) s = (x <- feed_str v s ;; Ok (collector_step st x)).
+Proof. exact tie_collector_feed_str_model. Qed.
+Check C14_source_collector_feed_str : forall v st s, g_collector_feed_str feed_str (v, st) s = (x <- feed_str v s ;; Ok (collector_step st x)).
+Print Assumptions C14_source_collector_feed_str.
+
+(** TextCollector::new *)
+Theorem C14_source_collector_new : forall v, g_collector_new v = Ok (v, []).
+Proof. exact tie_collector_new. Qed.
+Check C14_source_collector_new : forall v, g_collector_new v = Ok (v, []).
+Print Assumptions C14_source_collector_new.
+
